@@ -224,9 +224,9 @@ Definition txn_get (now : N) (d : db) (k : bytes) (ts : N) : gres :=
 
 (** * GC: valueLog.rewrite *)
 
-Definition ptr_leb (fid off : N) (p : vptr) : bool :=
-  (* not (diskVP.Fid > fid || (diskVP.Fid == fid && diskVP.Offset > ptr.Offset)) *)
-  negb ((fid <? p_fid p) || ((p_fid p =? fid) && (off <? p_off p))).
+(** Only the record the LSM pointer names is live (Badger's rule, /repo e808ac5):
+    [diskVP.Fid != fid || diskVP.Offset != ptr.Offset] skips the record. *)
+Definition ptr_here (fid off : N) (p : vptr) : bool := (p_fid p =? fid) && (p_off p =? off).
 
 Inductive decision := DSkip | DMove (r : rec) | DFail.
 
@@ -239,7 +239,7 @@ Definition gc_process (now : N) (s : state) (bk fid : N) (v : vrec) : decision :
   else
     let p := decode_vptr (r_val entry) in
     if negb (p_bucket p =? bk) then DSkip
-    else if negb (ptr_leb fid (vr_off v) p) then DSkip
+    else if negb (ptr_here fid (vr_off v) p) then DSkip
     else DMove {| r_key := r_key e; r_ver := r_ver e; r_val := r_val e; r_meta := N.ldiff (r_meta e) bit_vptr;
                   r_exp := r_exp e; r_seq := r_seq e |}.
 
@@ -315,6 +315,71 @@ Definition rewrite_race (c : cfg) (now : N) (d : db) (bk fid nseq : N) (batch : 
 
 Definition init_db (c : cfg) (memid : N) : db :=
   {| d_lsm := init memid; d_vl := repeat empty_bucket (N.to_nat (N.max 1 (c_nb c))) |}.
+
+(** * Hot/cold bucket routing (ValueLogHotBucketCount > 0)
+
+    With hot buckets enabled the bucket of an out-of-line entry depends on the
+    hot-key tracker (vlog.go bucketForEntry: keys touched at least
+    ValueLogHotKeyThreshold times go to the hot buckets).  The tracker is not
+    modelled: the harness reports, for every out-of-line entry of a request,
+    the bucket the write path chose, and the functions below take it as an
+    input.  Everything else (grouping per bucket in request order, one
+    AppendEntries per bucket, pointers, writeToLSM, GC) is as above; with the
+    reported bucket equal to [bucket_of] they coincide with [db_write] /
+    [rewrite] (Proofs/VlogGcProofs.v [db_write_r_static]). *)
+Definition group_r (c : cfg) (bk : N) (batch : list (rec * N)) : list rec :=
+  map fst (filter (fun rb => is_big c (fst rb) && (snd rb =? bk)) batch).
+
+Fixpoint write_buckets_r (c : cfg) (bk : N) (vl : list bucket) (batch : list (rec * N)) : list bucket * list (list vptr) :=
+  match vl with
+  | [] => ([], [])
+  | b :: vl' =>
+      let '(b', ps) := append_entries c bk b (group_r c bk batch) in
+      let '(vl'', pss) := write_buckets_r c (bk + 1) vl' batch in
+      (b' :: vl'', ps :: pss)
+  end.
+
+Fixpoint lsm_entries_r (c : cfg) (batch : list (rec * N)) (pss : list (list vptr)) : list rec :=
+  match batch with
+  | [] => []
+  | (r, bk) :: batch' =>
+      if is_big c r then
+        let '(o, pss') := pop_nth (N.to_nat bk) pss in
+        let p := match o with Some p => p | None => {| p_len := 0; p_off := 0; p_fid := 0; p_bucket := 0 |} end in
+        set_val_meta r (enc_vptr p) (N.lor (r_meta r) bit_vptr) :: lsm_entries_r c batch' pss'
+      else set_val_meta r (r_val r) (N.ldiff (r_meta r) bit_vptr) :: lsm_entries_r c batch' pss
+  end.
+
+Definition db_write_r (c : cfg) (d : db) (batch : list (rec * N)) : db :=
+  let '(vl', pss) := write_buckets_r c 0 (d_vl d) batch in
+  {| d_lsm := fold_left put (lsm_entries_r c batch pss) (d_lsm d); d_vl := vl' |}.
+
+(** reported routes of GC's write-back: (base key, version, bucket) *)
+Definition route_of (c : cfg) (routes : list (bytes * N * N)) (r : rec) : N :=
+  match find (fun t => bytes_eqb (fst (fst t)) (r_key r) && (snd (fst t) =? r_ver r)) routes with
+  | Some t => snd t
+  | None => bucket_of c (r_key r)
+  end.
+
+Definition gc_finish_r (c : cfg) (d : db) (bk fid : N) (wb : list rec) (routes : list (bytes * N * N)) : db * gc_result :=
+  match wb with
+  | [] => ({| d_lsm := d_lsm d; d_vl := upd_nth (N.to_nat bk) (fun b => remove_file b fid) (d_vl d) |}, GcOk)
+  | _ => (db_write_r c d (map (fun r => (r, route_of c routes r)) wb), GcErr)
+  end.
+
+Definition rewrite_r (c : cfg) (now : N) (d : db) (bk fid nseq : N) (routes : list (bytes * N * N)) : db * gc_result :=
+  match gc_decide now d bk fid nseq with
+  | None => (d, GcErr)
+  | Some wb => if 62 <? N.of_nat (length wb) then (d, GcErr) else gc_finish_r c d bk fid wb routes
+  end.
+
+Definition rewrite_race_r (c : cfg) (now : N) (d : db) (bk fid nseq : N) (batch : list (rec * N))
+           (routes : list (bytes * N * N)) : db * gc_result :=
+  match gc_decide now d bk fid nseq with
+  | None => (db_write_r c d batch, GcErr)
+  | Some wb => if 62 <? N.of_nat (length wb) then (db_write_r c d batch, GcErr)
+               else gc_finish_r c (db_write_r c d batch) bk fid wb routes
+  end.
 
 (** Close + Open: valueLog.open replays every file.  After a clean close every
     sealed file was truncated to its written size by DoneWriting, so replay ends
